@@ -1,5 +1,33 @@
-"""Translator group for C13: the body of sc_stats_mpifunc's loop (one 7-slot record pair)."""
-import os
+"""Translator groups for C13 (tie T1), regenerated from /repo/src/sc_statistics.c on every run.
+
+`StatsC13` (coq/Gen/StatsC13.v): the body of sc_stats_mpifunc's loop (one 7-slot record pair).
+
+`StatsVarC13` (coq/Gen/StatsVarC13.v): the per-variable object sc_statinfo_t and its protocol
+  var_set1_ext / var_init_ext / var_reset / var_accumulate   the whole bodies: every field they write (dirty, count, sum_values,
+        sum_squares, min, max, variable, variable_owned, group, prio; sc_strdup / sc_free as call effects)
+  var_set1_copy / _group / _prio, var_init_copy / _group / _prio   the arguments with which sc_stats_set1 / sc_stats_init call the _ext versions
+  var_compute1_prep          the loop body of sc_stats_compute1 (count, sum_squares, min, max from sum_values; dirty is NOT consulted)
+  var_compute_pack           the body of the packing loop of sc_stats_compute for one variable: memset (address, value, bytes) for a
+                             clean variable, else the seven slots flatin[7 * i + 0 .. 6]
+  var_compute_post           the body of the post-processing loop for one variable: all 13 numeric fields of the variable from the
+                             slots flatout[7 * i + 0 .. 6]; floating division and sqrt are the function parameters fdiv / fsqrt
+  var_derived_q              the four assignments average / avg / variance / variance_mean of that loop body over Q (exact rationals)
+  sc_stats_group_all_value 0 / sc_stats_prio_all_value 0   the values of the two constants
+  compute_alloc_bytes, compute_flatout, compute_flatin, compute_type_count, compute_op_commute, compute_allreduce_count, compute_nompi_copy_bytes
+                             the record stride 7 in the allocation, in flatout = flat + 7 * nvars, in MPI_Type_contiguous, the
+                             commutativity flag of MPI_Op_create, the count of MPI_Allreduce and the byte count of the memcpy of the
+                             build without MPI
+Conventions on top of tools/c2g/slicelib.py (all local to this file):
+  * `stats[i].f` (i the loop variable, nothing else) is the field f of THE variable considered: location stats_f, like `stats->f`;
+  * `flatin[7 * i + K]` / `flatout[7 * i + K]`, K a literal in 0..6, is the location flatin_K / flatout_K (slot K of the variable's
+    record); any other index shape is refused, so a changed stride is a failed translation;
+  * a chain `a = b = e` is `b = e; a = b`;
+  * doubles are exact numbers (header of the generated file); `(long) x` / `(int) x` of a double is s64 x / s32 x: the values
+    converted are counts and ranks, i.e. integers (the correspondence theorems assume them in range); `x / y` on doubles is
+    `fdiv x y` and `sqrt (x)` is `fsqrt x` with fdiv, fsqrt PARAMETERS of the generated definition (any functions);
+    var_derived_q translates the same statements with +, -, *, / and the comparison of SC_MAX over Q.
+coq/C13/VarGen.v proves that the hand-written state machine (coq/C13/VarModel.v) computes exactly these."""
+import os, re, copy
 
 
 def register(GROUPS, c2g, incs, REPO, HERE, STRUCTS, Group):
@@ -38,3 +66,309 @@ def register(GROUPS, c2g, incs, REPO, HERE, STRUCTS, Group):
         g.add(t, i)
         return g, [f]
     GROUPS["StatsC13"] = gen_stats
+    register_var(GROUPS, c2g, incs, REPO, HERE, STRUCTS, Group)
+
+
+def register_var(GROUPS, c2g, incs, REPO, HERE, STRUCTS, Group):
+    import slicelib as sl
+
+    FIELDS = ["dirty", "count", "sum_values", "sum_squares", "min", "max"]
+    NAMEF = ["variable", "variable_owned", "group", "prio"]
+    OUTF = ["min_at_rank", "max_at_rank", "average", "variance", "standev", "variance_mean", "standev_mean"]
+
+    def is_var(n, name):
+        n = sl.strip(n)
+        return n.get("kind") == "DeclRefExpr" and n.get("referencedDecl", {}).get("name") == name
+
+    def slot_index(n):
+        """K of `7 * i + K`, else None"""
+        n = sl.strip(n)
+        if n.get("kind") != "BinaryOperator" or n.get("opcode") != "+":
+            return None
+        l, r = sl.strip(n["inner"][0]), sl.strip(n["inner"][1])
+        if l.get("kind") != "BinaryOperator" or l.get("opcode") != "*" or r.get("kind") != "IntegerLiteral":
+            return None
+        a, b = sl.strip(l["inner"][0]), sl.strip(l["inner"][1])
+        if a.get("kind") != "IntegerLiteral" or a.get("value") != "7" or not is_var(b, "i"):
+            return None
+        k = int(r["value"])
+        return k if 0 <= k <= 6 else None
+
+    def prep(n, fname):
+        """the local conventions as a rewriting of the AST (see the module's documentation)"""
+        if not isinstance(n, dict):
+            return n
+        k = n.get("kind")
+        if k == "MemberExpr" and not n.get("isArrow"):
+            b = c2g.skip_parens(n["inner"][0])
+            if b.get("kind") == "ArraySubscriptExpr":
+                if not (is_var(b["inner"][0], "stats") and is_var(b["inner"][1], "i")):
+                    raise c2g.Unsupported("%s: field of something that is not stats[i]" % fname)
+                ref = dict(kind="DeclRefExpr", type={"qualType": "sc_statinfo_t *"}, referencedDecl=dict(kind="ParmVarDecl", name="stats"))
+                return dict(n, isArrow=True, inner=[dict(kind="ImplicitCastExpr", castKind="LValueToRValue", type={"qualType": "sc_statinfo_t *"}, inner=[ref])])
+        if k == "ArraySubscriptExpr":
+            b = sl.strip(n["inner"][0])
+            if b.get("kind") == "DeclRefExpr" and b["referencedDecl"]["name"] in ("flatin", "flatout"):
+                ki = slot_index(n["inner"][1])
+                if ki is None:
+                    raise c2g.Unsupported("%s: index of %s is not 7 * i + K with K in 0..6" % (fname, b["referencedDecl"]["name"]))
+                return dict(kind="DeclRefExpr", type=n.get("type"), referencedDecl=dict(kind="VarDecl", name="%s_%d" % (b["referencedDecl"]["name"], ki)))
+            if is_var(n["inner"][0], "stats"):
+                raise c2g.Unsupported("%s: stats[..] used as a whole" % fname)
+        out = dict(n)
+        if "inner" in n:
+            inner = [prep(c, fname) for c in n["inner"]]
+            if k == "CompoundStmt":
+                inner = unchain(inner)
+            out["inner"] = inner
+        return out
+
+    def unchain(stmts):
+        out = []
+        for s in stmts:
+            if isinstance(s, dict) and s.get("kind") == "BinaryOperator" and s.get("opcode") == "=":
+                rhs = s["inner"][1]
+                if isinstance(rhs, dict) and rhs.get("kind") == "BinaryOperator" and rhs.get("opcode") == "=":
+                    inner = unchain([rhs])
+                    last = inner[-1]
+                    rd = dict(kind="ImplicitCastExpr", castKind="LValueToRValue", type=last["inner"][0].get("type"), inner=[last["inner"][0]])
+                    out += inner + [dict(s, inner=[s["inner"][0], rd])]
+                    continue
+            out.append(s)
+        return out
+
+    class StatT(sl.SliceT):
+        """doubles: (long) x / (int) x, x / y and sqrt (x) - see the module's documentation"""
+        def need(self, name, ty):
+            if (name, ty) not in self.extra:
+                self.extra.append((name, ty))
+
+        def expr(self, n, env):
+            k = n.get("kind")
+            if k in ("ImplicitCastExpr", "CStyleCastExpr") and n.get("castKind") == "FloatingToIntegral":
+                dst = c2g.int_type(c2g.tystr(n))
+                if dst is None:
+                    raise c2g.Unsupported("conversion of a double to %s in %s" % (c2g.tystr(n), self.fname))
+                return c2g.E("%s %s" % (c2g.wrapname(dst), self.expr(n["inner"][0], env).z()))
+            if k == "BinaryOperator" and n.get("opcode") == "/" and c2g.is_float(c2g.tystr(n)):
+                a, b = self.expr(n["inner"][0], env), self.expr(n["inner"][1], env)
+                self.need("fdiv", "Z -> Z -> Z")
+                return c2g.E("fdiv %s %s" % (a.z(), b.z()))
+            if k == "CallExpr" and sl.callee_name(n) == "sqrt":
+                self.need("fsqrt", "Z -> Z")
+                return c2g.E("fsqrt %s" % self.expr(n["inner"][1], env).z())
+            return super().expr(n, env)
+
+    def block(stmts, gname, outputs, fname, **kw):
+        saved = sl.SliceT
+        sl.SliceT = StatT
+        try:
+            return sl.emit_block(stmts, gname, outputs, fname, **kw)
+        finally:
+            sl.SliceT = saved
+
+    # ---- the four assignments of the derived outputs over Q
+    def qexpr(n, env, fname):
+        n = c2g.skip_parens(n)
+        k = n.get("kind")
+        if k in ("ImplicitCastExpr", "CStyleCastExpr") and n.get("castKind") in ("LValueToRValue", "NoOp", "FloatingCast"):
+            return qexpr(n["inner"][0], env, fname)
+        if k == "FloatingLiteral":
+            v = float(n.get("value"))
+            if v != int(v):
+                raise c2g.Unsupported("floating literal %s in %s" % (n.get("value"), fname))
+            return "(inject_Z %s)" % c2g.lit(int(v)).z()
+        if k in ("DeclRefExpr", "MemberExpr"):
+            key = n["referencedDecl"]["name"] if k == "DeclRefExpr" else "stats_" + n["name"]
+            if k == "MemberExpr" and not (n.get("isArrow") and is_var(n["inner"][0], "stats")):
+                raise c2g.Unsupported("field access in %s" % fname)
+            if not c2g.is_float(c2g.tystr(n)):
+                raise c2g.Unsupported("%s is not a double in %s" % (key, fname))
+            if key not in env:
+                env[key] = key
+                env["*params"].append(key)
+            return env[key]
+        if k == "BinaryOperator" and n.get("opcode") in ("+", "-", "*", "/") and c2g.is_float(c2g.tystr(n)):
+            return "(%s %s %s)" % (qexpr(n["inner"][0], env, fname), n["opcode"], qexpr(n["inner"][1], env, fname))
+        if k == "ConditionalOperator":
+            c = c2g.skip_parens(n["inner"][0])
+            if c.get("kind") == "BinaryOperator" and c.get("opcode") in ("<", ">", "<=", ">="):
+                a, b = qexpr(c["inner"][0], env, fname), qexpr(c["inner"][1], env, fname)
+                # x < y is negb (y <= x) on the rationals
+                cond = {"<": "negb (Qle_bool %s %s)" % (b, a), ">": "negb (Qle_bool %s %s)" % (a, b),
+                        "<=": "Qle_bool %s %s" % (a, b), ">=": "Qle_bool %s %s" % (b, a)}[c["opcode"]]
+                return "(if %s then %s else %s)" % (cond, qexpr(n["inner"][1], env, fname), qexpr(n["inner"][2], env, fname))
+        raise c2g.Unsupported("expression kind %s over Q in %s" % (k, fname))
+
+    def qblock(stmts, gname, outputs, fname, params=()):
+        env = {"*params": list(params)}
+        for p_ in params:
+            env[p_] = p_
+        text = ""
+        cnt = [0]
+        for s in stmts:
+            if s.get("kind") != "BinaryOperator" or s.get("opcode") != "=":
+                raise c2g.Unsupported("%s: statement kind %s over Q" % (fname, s.get("kind")))
+            l = c2g.skip_parens(s["inner"][0])
+            key = l["referencedDecl"]["name"] if l.get("kind") == "DeclRefExpr" else "stats_" + l.get("name", "?")
+            e = qexpr(s["inner"][1], env, fname)
+            cnt[0] += 1
+            v = "%s_%d" % (key, cnt[0])
+            text += "let %s := %s in\n" % (v, e)
+            env[key] = v
+        for o in outputs:
+            if o not in env:
+                raise c2g.Unsupported("%s: %s is not assigned" % (fname, o))
+        text += "(%s)" % ", ".join(env[o] for o in outputs)
+        plist = " ".join("(%s : Q)" % p for p in env["*params"])
+        return "Definition %s %s :=\n(%s)%%Q.\n" % (gname, plist, text), dict(name=gname, cname=fname, params=list(env["*params"]), outputs=list(outputs), fuel=False)
+
+    def gen_var(tmp):
+        g = Group("StatsVarC13")
+        g.text += "From Coq Require Import QArith.\nLocal Open Scope Z_scope.\n\n"
+        f = os.path.join(REPO, "src", "sc_statistics.c")
+        sim = os.path.join(os.path.dirname(HERE), "simmpi")
+        mpiinc = [sim] if os.path.exists(os.path.join(sim, "mpi.h")) else ["/usr/lib/x86_64-linux-gnu/openmpi/include"]
+        cache = {}
+
+        def fn(name, mpi=True):
+            if (name, mpi) not in cache:
+                objs = c2g.clang_ast(f, name, incs(tmp) + (mpiinc if mpi else []), defs=("SC_ENABLE_MPI",) if mpi else ())
+                cache[(name, mpi)] = c2g.find_function(objs, name)
+            return cache[(name, mpi)]
+
+        def body(F):
+            return [c for c in F["inner"] if c.get("kind") == "CompoundStmt"][0]
+
+        def one(lst, what):
+            if len(lst) != 1:
+                raise c2g.Unsupported("%s: %d candidates" % (what, len(lst)))
+            return lst[0]
+
+        S = ["stats_" + x for x in FIELDS]
+        N = ["stats_" + x for x in NAMEF]
+        # ---- the four functions that work on one variable through the pointer `stats`
+        for cfn, gname, params, outs, want, eff in (
+                ("sc_stats_set1_ext", "var_set1_ext", ("value", "variable", "copy_variable", "stats_group", "stats_prio", "stats_variable", "stats_variable_owned"), S + N + ["*ghosts"],
+                 ["value", "variable", "copy_variable", "stats_group", "stats_prio", "stats_variable", "stats_variable_owned", "sc_strdup_ret", "sc_package_id"], ("sc_strdup",)),
+                ("sc_stats_init_ext", "var_init_ext", ("variable", "copy_variable", "stats_group", "stats_prio", "stats_variable", "stats_variable_owned"), S + N + ["*ghosts"],
+                 ["variable", "copy_variable", "stats_group", "stats_prio", "stats_variable", "stats_variable_owned", "sc_strdup_ret", "sc_package_id"], ("sc_strdup",)),
+                ("sc_stats_reset", "var_reset", ("reset_vgp",) + tuple(N), S + N + ["*ghosts"],
+                 ["reset_vgp", "sc_package_id", "sc_stats_group_all", "sc_stats_prio_all"] + N, ("sc_free",)),
+                ("sc_stats_accumulate", "var_accumulate", ("value",) + tuple(S), S, ["value"] + S, ())):
+            st = prep(body(fn(cfn)), cfn)["inner"]
+            t, i = block(st, gname, outs, cfn, params=params, want_params=want, effects=eff, effect_called=bool(eff))
+            g.add(t, i)
+
+        # ---- the two constants "all groups" / "all priorities"
+        for cname in ("sc_stats_group_all", "sc_stats_prio_all"):
+            v = c2g.find_var(c2g.clang_ast(f, cname, incs(tmp)), cname)
+            t, i = c2g.translate_table(v, cname + "_value")
+            if i["length"] != 1:
+                raise c2g.Unsupported("%s is not a scalar constant" % cname)
+            g.add(t, i)
+
+        # ---- how the short forms call the _ext versions
+        for cfn, callee, pre, first in (("sc_stats_set1", "sc_stats_set1_ext", "var_set1", 3), ("sc_stats_init", "sc_stats_init_ext", "var_init", 2)):
+            calls = sl.find_nodes(fn(cfn), lambda n: n.get("kind") == "CallExpr" and sl.callee_name(n) == callee)
+            a = one(calls, "%s: calls of %s" % (cfn, callee))["inner"][1:]
+            for k_, nm in enumerate(("copy", "group", "prio")):
+                t, i = sl.emit_expr(a[first + k_], "%s_%s" % (pre, nm), cfn, want_params=[] if nm == "copy" else ["sc_stats_%s_all" % nm])
+                g.add(t, i)
+            for k_ in range(first):
+                if not is_var(a[k_], ("stats", "value", "variable")[k_] if first == 3 else ("stats", "variable")[k_]):
+                    raise c2g.Unsupported("%s does not pass its own arguments on" % cfn)
+
+        # ---- sc_stats_compute1: the loop body, and the call of sc_stats_compute
+        F = fn("sc_stats_compute1")
+        loop = one([c for c in body(F).get("inner", []) if c.get("kind") == "ForStmt"], "sc_stats_compute1: for loops")
+        rest = [c for c in body(F).get("inner", []) if c.get("kind") not in ("ForStmt", "DeclStmt")]
+        if len(rest) != 1 or sl.callee_name(sl.strip(rest[0])) != "sc_stats_compute" or body(F)["inner"][-1] is not rest[0]:
+            raise c2g.Unsupported("sc_stats_compute1 is not `loop; sc_stats_compute (..)`")
+        for k_, nm in enumerate(("mpicomm", "nvars", "stats")):
+            if not is_var(sl.strip(rest[0])["inner"][1 + k_], nm):
+                raise c2g.Unsupported("sc_stats_compute1 does not pass %s on" % nm)
+        st = prep(loop["inner"][-1], "sc_stats_compute1")["inner"]
+        t, i = block(st, "var_compute1_prep", S, "sc_stats_compute1", params=tuple(S), want_params=S)
+        g.add(t, i)
+
+        # ---- sc_stats_compute
+        F = fn("sc_stats_compute")
+        loops = [c for c in body(F).get("inner", []) if c.get("kind") == "ForStmt"]
+        if len(loops) != 2:
+            raise c2g.Unsupported("sc_stats_compute: %d for loops" % len(loops))
+        for lp in loops:
+            ini, cond, inc = lp["inner"][0], lp["inner"][-3], lp["inner"][-2]
+            okc = cond.get("kind") == "BinaryOperator" and cond.get("opcode") == "<" and is_var(cond["inner"][0], "i") and is_var(cond["inner"][1], "nvars")
+            oki = ini.get("kind") == "BinaryOperator" and ini.get("opcode") == "=" and is_var(ini["inner"][0], "i") and sl.strip(ini["inner"][1]).get("value") == "0"
+            okn = inc.get("kind") == "UnaryOperator" and inc.get("opcode") == "++" and is_var(inc["inner"][0], "i")
+            if not (okc and oki and okn):
+                raise c2g.Unsupported("sc_stats_compute: a loop is not `for (i = 0; i < nvars; ++i)`")
+        FL_IN = ["flatin_%d" % k_ for k_ in range(7)]
+        FL_OUT = ["flatout_%d" % k_ for k_ in range(7)]
+        st = prep(loops[0]["inner"][-1], "sc_stats_compute")["inner"]
+        t, i = block(st, "var_compute_pack", ["*ghosts"] + FL_IN, "sc_stats_compute/pack", params=tuple(S + ["rank", "flatin", "i"] + FL_IN),
+                     want_params=S + ["rank", "flatin", "i"] + FL_IN, effects=("memset",), effect_called=True, elem_ptr_types=("double *",), jumps_end=True)
+        if i["outputs"] != ["memset_called", "memset_arg0", "memset_arg1", "memset_arg2"] + FL_IN:
+            raise c2g.Unsupported("sc_stats_compute/pack: unexpected effects %s" % i["outputs"])
+        g.add(t, i)
+        ALL = S + ["stats_" + x for x in OUTF]
+        st = prep(loops[1]["inner"][-1], "sc_stats_compute")["inner"]
+        t, i = block(st, "var_compute_post", ALL, "sc_stats_compute/post", params=tuple(ALL + FL_OUT), want_params=ALL + FL_OUT, jumps_end=True,
+                     init={"avg": "0", "cnt": "0"})   # locals of the function, uninitialised before the loop
+        g.add(t, i)
+        # the derived outputs over Q: the assignments to average / avg / variance / variance_mean in the branch with samples
+        branch = one([s_ for s_ in st if s_.get("kind") == "IfStmt" and len(s_["inner"]) == 3 and sl.refs(s_["inner"][0]) == {"cnt"}],
+                     "sc_stats_compute/post: if (!cnt) .. else ..")
+        els = branch["inner"][2].get("inner", [])
+        DER = ("stats_average", "avg", "stats_variance", "stats_variance_mean")
+
+        def lkey(s_):
+            if s_.get("kind") != "BinaryOperator" or s_.get("opcode") != "=":
+                return None
+            l = c2g.skip_parens(s_["inner"][0])
+            return l["referencedDecl"]["name"] if l.get("kind") == "DeclRefExpr" else "stats_" + l.get("name", "?")
+        der = [s_ for s_ in els if lkey(s_) in DER]
+        pos = [k_ for k_, s_ in enumerate(els) if lkey(s_) in DER]
+        if not pos or pos != list(range(pos[0], len(els))):
+            raise c2g.Unsupported("sc_stats_compute/post: the derived outputs are not the last statements of the branch with samples")
+        t, i = qblock(der, "var_derived_q", ["stats_average", "stats_variance", "stats_variance_mean"], "sc_stats_compute/post",
+                      params=("stats_sum_values", "stats_sum_squares", "cnt"))
+        if sorted(i["params"]) != ["cnt", "stats_sum_squares", "stats_sum_values"]:
+            raise c2g.Unsupported("sc_stats_compute/post: the derived outputs depend on %s" % i["params"])
+        g.add(t, i)
+
+        # ---- the record stride and the reduction call
+        def call(F_, callee):
+            return one(sl.find_nodes(F_, lambda n: n.get("kind") == "CallExpr" and sl.callee_name(n) == callee), "calls of " + callee)["inner"][1:]
+        a = call(F, "sc_malloc")
+        t, i = sl.emit_expr(a[1], "compute_alloc_bytes", "sc_stats_compute", want_params=["nvars"])
+        g.add(t, i)
+        asg = one(sl.find_nodes(F, lambda n: n.get("kind") == "BinaryOperator" and n.get("opcode") == "=" and is_var(n["inner"][0], "flatout")), "flatout =")
+        t, i = sl.emit_expr(asg["inner"][1], "compute_flatout", "sc_stats_compute", want_params=["flat", "nvars"], elem_ptr_types=("double *",))
+        g.add(t, i)
+        asg = one(sl.find_nodes(F, lambda n: n.get("kind") == "BinaryOperator" and n.get("opcode") == "=" and is_var(n["inner"][0], "flatin")), "flatin =")
+        t, i = sl.emit_expr(asg["inner"][1], "compute_flatin", "sc_stats_compute", want_params=["flat"], elem_ptr_types=("double *",))
+        g.add(t, i)
+        a = call(F, "MPI_Type_contiguous")
+        t, i = sl.emit_expr(a[0], "compute_type_count", "sc_stats_compute", want_params=[])
+        g.add(t, i)
+        a = call(F, "MPI_Op_create")
+        if sl.strip(a[0]).get("referencedDecl", {}).get("name") != "sc_stats_mpifunc":
+            raise c2g.Unsupported("MPI_Op_create is not given sc_stats_mpifunc")
+        t, i = sl.emit_expr(a[1], "compute_op_commute", "sc_stats_compute", want_params=[])
+        g.add(t, i)
+        a = call(F, "MPI_Allreduce")
+        if not (is_var(a[0], "flatin") and is_var(a[1], "flatout") and is_var(a[3], "ctype") and is_var(a[4], "op") and is_var(a[5], "mpicomm")):
+            raise c2g.Unsupported("MPI_Allreduce is not called as (flatin, flatout, .., ctype, op, mpicomm)")
+        t, i = sl.emit_expr(a[2], "compute_allreduce_count", "sc_stats_compute", want_params=["nvars"])
+        g.add(t, i)
+        # the build without MPI (the pinned configuration): flatout is a copy of flatin
+        F0 = fn("sc_stats_compute", mpi=False)
+        a = call(F0, "memcpy")
+        if not (is_var(a[0], "flatout") and is_var(a[1], "flatin")):
+            raise c2g.Unsupported("without MPI: memcpy is not (flatout, flatin, ..)")
+        t, i = sl.emit_expr(a[2], "compute_nompi_copy_bytes", "sc_stats_compute", want_params=["nvars"])
+        g.add(t, i)
+        return g, [f]
+    GROUPS["StatsVarC13"] = gen_var
